@@ -1090,6 +1090,14 @@ def rule_wrap(env, shared):
             return x[0] == "field" and x[2] == 0 and unref(x[1]) in (("param", 1), ("deref", ("param", 1)))
         om = option_map_payload(ev0, F, b, lambda x: x[1] in (R.T_CON + "::next", R.T_CON + "::next_id_and_value")
                                 and is_inner(x[2][0]))
+        if om is not None and om[1] is not None and om[1][0] == "ret" and ev0.fn_by_path(str(om[1][1])) is not None:
+            # the payload goes through a small function of the crate (`next.into_id_and_value()`): judged with that one
+            # function inlined
+            hb_ = ev0.fn_by_path(str(om[1][1]))
+            from terms import Ctx as _Ctx2
+            if hb_.arg_count == len(om[1][2]):
+                inl = unref(ev0.local(_Ctx2(hb_, params=tuple(om[1][2]), stack=(b.def_, hb_.def_), depth=1), 0))
+                om = (om[0], inl, om[2])
         if om is not None:
             rt, pay, cands = om
             if pay is None and rt[1] == R.T_CON + "::next":
